@@ -4,7 +4,7 @@ package main
 
 // The tie of MiniJS STATEMENTS (coq/Model/MiniJS.v: js_exec) to V8: random statements of the subset of
 // C04_gen_correct_partial_stmt (raw text, print with directives, let in both forms, if / elseif / else, switch with case
-// groups and default, foreach / ifempty with index / isFirst / isLast of the enclosing loops, nested blocks) are given to the model (op minijs_stmt), which returns the JavaScript
+// groups and default, foreach / ifempty and for over range() with index / isFirst / isLast of the enclosing loops, nested blocks) are given to the model (op minijs_stmt), which returns the JavaScript
 // text the generator model writes for them (sprint (sgen s)), the text the subset semantics writes (sout)
 // and the variables after MiniJS executed the statement (js_exec) from an empty buffer; node runs the same
 // text inside a function that declares the same variables (soyutils.js loaded), and must end with the same
@@ -48,6 +48,22 @@ func (g *cexprGen) stmt(d int) string {
 		if g.r.Chance(6) {
 			lst = g.r.Pick([]string{"(cvar " + sx("u") + ")", "(cvar " + sx("a") + ")", "(cvar " + sx("s") + ")", "(cnull)"}) // not a list: outside the subset
 		}
+		// {for $v in range(..)}: one to three integer arguments; now and then a zero or negative step, a string, four arguments
+		isRange := g.r.Chance(40)
+		rargs := ""
+		if isRange {
+			small := func() string {
+				return g.r.Pick([]string{"(cint 0)", "(cint 1)", "(cint 2)", "(cint 3)", "(cint 5)", "(cint -2)", "(cint 7)", "(cvar " + sx("x") + ")", "(cvar " + sx("a") + " (key 0 " + sx("b") + "))",
+					"(cbin add (cvar " + sx("x") + ") (cint 1))", "(cbin sub (cint 6) (cvar " + sx("x") + "))"}) // small: the models build the list
+			}
+			rargs = small()
+			for k := g.r.Intn(3); k > 0; k-- {
+				rargs += " " + small()
+			}
+			if g.r.Chance(4) {
+				rargs += " " + g.r.Pick([]string{"(cint 0)", "(cint -1)", "(cstr " + sx("2") + ")", "(cint 1) (cint 1) (cint 1)"})
+			}
+		}
 		ni, nl := len(g.intVars), len(g.loops)
 		g.intVars, g.loops = append(g.intVars, v), append(g.loops, v)
 		body := g.blk(d - 1)
@@ -55,6 +71,9 @@ func (g *cexprGen) stmt(d int) string {
 		hasie, ie := "0", "(blk)"
 		if g.r.Chance(50) {
 			hasie, ie = "1", g.blk(d-1)
+		}
+		if isRange {
+			return "(sforrange " + sx(v) + " (" + rargs + ") " + body + " " + hasie + " " + ie + ")"
 		}
 		return "(sfor " + sx(v) + " " + lst + " " + body + " " + hasie + " " + ie + ")"
 	case k < 2:
@@ -234,7 +253,7 @@ func c04StmtTie(e *env, n int) {
 				cls = "outside-subset"
 			}
 			e.res.Count("stmt:"+it.req, it.sout != "none", "minijs-stmt:"+cls+":"+it.cls)
-			for _, f := range []string{"var ", " = '';", "} else if (", "} else {", "switch (", "default:", "case ", "for (var ", ".length;", " > 0) {", " == 0)", " - 1)"} {
+			for _, f := range []string{"var ", " = '';", "} else if (", "} else {", "switch (", "default:", "case ", "for (var ", ".length;", " > 0) {", " == 0)", " - 1)", "Math.ceil("} {
 				if strings.Contains(it.text, f) {
 					e.res.Histogram["minijs-stmt:has:"+strings.TrimSpace(f)]++
 				}
